@@ -265,6 +265,26 @@ func (n *Net) Dial(ip string, port int, who string) (*End, error) {
 	return c.Cli, nil
 }
 
+// NewPeerConn makes a connection to a scripted peer that has no listening
+// socket (a FastCGI responder, a proxy backend): the caller hands one end to
+// the code under test and drives the other. Cli is the dialing side.
+func (n *Net) NewPeerConn(who string, peerIP net.IP, peerPort int) *Conn {
+	n.mu.Lock()
+	id := len(n.conns) + 1
+	c := &Conn{n: n, ID: id, Who: who, SrvRecvAtLnClose: -1}
+	cliAddr := &net.TCPAddr{IP: net.IPv4(127, 0, 0, 1), Port: 50000 + id%10000}
+	srvAddr := &net.TCPAddr{IP: peerIP, Port: peerPort}
+	c.Cli = &End{conn: c, side: "c", local: cliAddr, remote: srvAddr, notify: make(chan struct{}), window: n.DefaultWindow}
+	c.Srv = &End{conn: c, side: "s", local: srvAddr, remote: cliAddr, notify: make(chan struct{}), window: n.DefaultWindow}
+	c.Cli.peer, c.Srv.peer = c.Srv, c.Cli
+	c.Cli.cuts = n.C.T.Stream(fmt.Sprintf("conn%d.c", id))
+	c.Srv.cuts = n.C.T.Stream(fmt.Sprintf("conn%d.s", id))
+	n.conns = append(n.conns, c)
+	n.mu.Unlock()
+	n.C.Logf("net: conn%d opened by %s to a scripted peer", id, who)
+	return c
+}
+
 // Conns returns all connections ever made.
 func (n *Net) Conns() []*Conn {
 	n.mu.Lock()
@@ -336,6 +356,10 @@ type End struct {
 	RecvTotal int   // total bytes ever delivered to this end
 	SentTotal int   // total bytes this end ever sent
 	OnData    func() // called (under no lock) after a delivery towards this end
+	// Opaque marks a direction whose byte counts are not reproducible (TLS
+	// records carrying signatures, FastCGI params written in map order): it is
+	// delivered whole and its sizes stay out of the event log.
+	Opaque bool
 }
 
 func (e *End) bcast() {
@@ -700,10 +724,14 @@ func (n *Net) doDeliver(e *End) {
 	e.infBytes -= moved
 	e.RecvTotal += moved
 	// sometimes the FIN rides with the last data
-	if e.infBytes == 0 && e.finQueued && !e.finDeliv && e.cuts.Draw(2) == 1 {
+	if e.infBytes == 0 && e.finQueued && !e.finDeliv && !e.Opaque && e.cuts.Draw(2) == 1 {
 		e.finDeliv = true
 	}
-	n.C.Logf("net: %d bytes delivered to %s", moved, e.Name())
+	if e.Opaque {
+		n.C.Logf("net: bytes delivered to %s", e.Name())
+	} else {
+		n.C.Logf("net: %d bytes delivered to %s", moved, e.Name())
+	}
 	e.bcast()
 	n.mu.Unlock()
 	if e.OnData != nil {
@@ -715,6 +743,9 @@ func (n *Net) doDeliver(e *End) {
 // Called with n.mu held.
 func (e *End) chooseCut() int {
 	tot := e.infBytes
+	if e.Opaque {
+		return tot
+	}
 	if len(e.CutPlan) > 0 {
 		k := e.CutPlan[0]
 		e.CutPlan = e.CutPlan[1:]
